@@ -130,9 +130,11 @@ def isAsciiWord (c : Char) : Bool :=
 
 def lowerAscii (c : Char) : Char := if 'A' ≤ c && c ≤ 'Z' then Char.ofNat (c.toNat + 32) else c
 
-/-- the optional time group `(?:\s*\(?HH:MM(?::SS)?\)?)?`; returns (H, M, S) texts. -/
+/-- the optional time group `(?:\s*\(?HH:MM(?::SS)?\)?)?`; returns (H, M, S) texts.
+`\s` on ASCII text: blank, TAB, LF, CR, VT, FF and the separators U+001C–U+001F. -/
 def parseTime (s : List Char) : Option (List Char × List Char × Option (List Char)) :=
-  let s1 := s.dropWhile (fun c => c = ' ' || c = '\t' || c = '\n' || c = '\r' || c = Char.ofNat 11 || c = Char.ofNat 12)
+  let s1 := s.dropWhile (fun c => c = ' ' || c = '\t' || c = '\n' || c = '\r' || c = Char.ofNat 11 || c = Char.ofNat 12
+                                  || c = Char.ofNat 28 || c = Char.ofNat 29 || c = Char.ofNat 30 || c = Char.ofNat 31)
   let s2 := match s1 with | '(' :: r => r | r => r
   match s2 with
   | h1 :: h2 :: ':' :: m1 :: m2 :: r =>
@@ -336,5 +338,141 @@ def Row.getName (r : Row) (k : List Char) : Option CastRes :=
   match idxs.getLast? with
   | none => none
   | some i => r.getIdx i
+
+/-! ### `int()` and `_parse_datetime` beyond the core fragment
+
+`castInt`/`parseDate`/`cast` above answer `unmodelled` outside a core fragment.  The functions below
+decide more of the input space and agree with the core ones wherever those give an answer
+(`castIntPy_refines`, `castPy_refines` in Props.lean); the driver answers with these. -/
+
+/-- what `int()` skips at both ends of an ASCII string (`Py_ISSPACE`): blank, TAB, LF, VT, FF, CR —
+not the separators U+001C–U+001F. -/
+def isBlank (c : Char) : Bool :=
+  c = ' ' || c = '\t' || c = '\n' || c = '\r' || c = Char.ofNat 11 || c = Char.ofNat 12
+
+def stripBlanks (s : List Char) : List Char :=
+  ((s.dropWhile isBlank).reverse.dropWhile isBlank).reverse
+
+/-- decimal digits with single underscores strictly between digits (PEP 515); the digits without the
+underscores.  `prev` = the previous character was a digit. -/
+def undigits : Bool → List Char → Option (List Char)
+  | prev, [] => if prev then some [] else none
+  | prev, c :: r =>
+    if isDigit c then (undigits true r).map (c :: ·)
+    else if c = '_' && prev then
+      match r with
+      | d :: _ => if isDigit d then undigits false r else none
+      | [] => none
+    else none
+
+def isAscii (c : Char) : Bool := c.toNat ≤ 127
+
+/-- `int(s)` on ASCII strings: surrounding blanks, one sign, digits with PEP 515 underscores; everything
+else is `ValueError`.  Strings with a non-ASCII character (Unicode blanks and digits are accepted by
+Python) stay `unmodelled`. -/
+def castIntPy (s : List Char) : Except Err Int :=
+  if !s.all isAscii then .error .unmodelled else
+  let (neg, body) := match stripBlanks s with
+    | '-' :: r => (true, r)
+    | '+' :: r => (false, r)
+    | r => (false, r)
+  match undigits false body with
+  | some ds =>
+    let n := digitsToNat ds
+    .ok (if neg then - (n : Int) else (n : Int))
+  | none => .error .valueError
+
+/-- `re.match(r':?(today|now)', s)`: such a text is cast to the current time (not a function of the
+input: never compared). -/
+def isTodayNow (s : List Char) : Bool :=
+  let s' := match s with | ':' :: r => r | r => r
+  ['t','o','d','a','y'].isPrefixOf s' || ['n','o','w'].isPrefixOf s'
+
+/-- `_parse_datetime` on ASCII text: when neither date pattern matches, the raw text goes to
+`strptime(s, '%Y-%m-%d %H:%M:%S')`, which would need `dddd-d` at the start — that the first pattern
+matches; so the text is invalid (warning + `None`). -/
+def parseDatePy (s : List Char) : DateRes :=
+  if !s.all isAscii then .unmodelled
+  else if isTodayNow s then .unmodelled
+  else match parseDate s with
+    | .unmodelled => .invalid
+    | r => r
+
+def castPy (dt : DType) (raw : List Char) : CastRes :=
+  if raw.isEmpty then .val .none else
+  match dt with
+  | .integer => match castIntPy raw with
+    | .ok i => .val (.int i)
+    | .error e => .err e
+  | .string => .val (.str raw)
+  | .date => match parseDatePy raw with
+    | .ok t => .val (.date t)
+    | .invalid => .val .none
+    | .keyError => .err .keyError
+    | .unmodelled => .err .unmodelled
+
+/-! ### typed `split(line, fields)` / `join(values, fields)` -/
+
+structure Field where
+  name : List Char
+  dt : DType
+deriving Repr, DecidableEq
+
+/-- `Field.default`: `TSDB_CODED_ATTRIBUTES.get(name, '-1' if datatype == ':integer' else '')`. -/
+def Field.default (f : Field) : List Char :=
+  match codedAttributes.find? (fun p => p.1.toList == f.name) with
+  | some p => p.2.toList
+  | none => if f.dt = .integer then ['-', '1'] else []
+
+def padTo (k : Nat) (cs : List Char) : List Char := List.replicate (k - cs.length) '0' ++ cs
+
+/-- `str(datetime)` at second resolution: `YYYY-MM-DD HH:MM:SS`. -/
+def strDateTime (t : DT) : List Char :=
+  padTo 4 (natDigits t.y) ++ '-' :: pad2 t.mo ++ '-' :: pad2 t.d ++ ' ' :: pad2 t.H ++ ':' :: pad2 t.M ++ ':' :: pad2 t.S
+
+/-- `str(value)` -/
+def strVal (v : Val) : List Char :=
+  match v with
+  | .none => ['N', 'o', 'n', 'e']
+  | .int i => formatInt i
+  | .str s => s
+  | .date t => strDateTime t
+
+/-- `format(f.datatype, value, default=f.default)`: `None` ↦ the field's default; a date-time in a
+`:date` column ↦ the TSDB date format; everything else ↦ `str(value)`. -/
+def formatField (f : Field) (v : Val) : List Char :=
+  match v with
+  | .none => f.default
+  | .date t => if f.dt = .date then formatDate t else strDateTime t
+  | v => strVal v
+
+/-- `tsdb.join(values, fields)`.  A falsy `fields` (empty list) is the untyped branch
+(`'' if v is None else str(v)`, no count check); otherwise the column count is checked first. -/
+def joinTyped (fields : List Field) (vals : List Val) : Except Err (List Char) :=
+  if fields.isEmpty then
+    .ok (joinWith fieldDelimiter (vals.map (fun v => escape (match v with | .none => [] | v => strVal v))))
+  else if vals.length ≠ fields.length then .error .tsdbError
+  else .ok (joinWith fieldDelimiter (List.zipWith (fun f v => escape (formatField f v)) fields vals))
+
+def rawVal : Option (List Char) → Val
+  | none => .none
+  | some s => .str s
+
+/-- a cast that raised aborts the whole `split`. -/
+def cellOf (r : CastRes) : Except Err Val :=
+  match r with
+  | .val v => .ok v
+  | .err e => .error e
+
+/-- `tsdb.split(line, fields)`: the raw values first (a bad escape is raised before anything else), then
+the column count, then `cast` column by column (the first failing cast is raised). -/
+def splitTyped (fields : List Field) (line : List Char) : Except Err (List Val) :=
+  match splitRaw line with
+  | .error e => .error e
+  | .ok raw =>
+    if fields.isEmpty then .ok (raw.map rawVal)
+    else if raw.length ≠ fields.length then .error .tsdbError
+    else (List.zipWith (fun (col : Option (List Char)) (f : Field) => (f.dt, col.getD [])) raw fields).mapM
+      (fun p => cellOf (castPy p.1 p.2))
 
 end Verif.C08
